@@ -9,8 +9,8 @@ use cgmath::{
 };
 use serde_json::json;
 
-use crate::fw::{Clause, Extra, RunCfg};
-use crate::gen::{Rng, Tier};
+use cgv_core::fw::{Clause, Extra, RunCfg};
+use cgv_core::gen::{Rng, Tier};
 
 pub trait Fl:
     cgmath::BaseFloat + std::fmt::Debug + serde::Serialize + serde::de::DeserializeOwned + 'static
@@ -511,7 +511,7 @@ pub fn native(cfg: &RunCfg, extra: &mut Extra) {
     for i in 0..n {
         let mut rng = Rng::for_case(cfg.seed, "c18_native", i);
         rounds += 1;
-        let r = crate::fw::catch(|| {
+        let r = cgv_core::fw::catch(|| {
             all::<f64>(&mut rec, &mut rng);
             all::<f32>(&mut rec, &mut rng);
         });
